@@ -16,11 +16,11 @@ func vhInRange(g *Glob, s string, desc bool) bool {
 }
 
 // VH_C12_glob_range
-//verif:cfg quick.b_pattern_bytes=3 quick.b_name_bytes=3 thorough.b_pattern_bytes=5 thorough.b_name_bytes=4
+//verif:cfg quick.b_pattern_bytes=3 quick.b_name_bytes=3 thorough.b_pattern_bytes=4 thorough.b_name_bytes=4
 func VH_C12_glob_range() {
 	pmax, smax := 3, 3
 	if vthorough() {
-		pmax, smax = 5, 4
+		pmax, smax = 4, 4
 	}
 	p := vnondetString(pmax)
 	s := vnondetString(smax)
